@@ -26,6 +26,16 @@ CHECKS = {
             "10 property classes x every value up to 4/5 tokens over a 25-token CSS-adversarial alphabet, url()/quoted-string shapes with every inner string up to 3/4 tokens, every property name up to 3/4 tokens, through safehtml.SanitizeCSS, templ.SanitizeCSS, SanitizeStyleAttributeValues (map and KeyValue) and the compiled css-component and style-attribute sinks. The emitted declaration is parsed inside '.a{...}.sentinel{color:red}' by a CSS Syntax Level 3 tokenizer/parser: one item, sentinel intact, no comment/bad-string/bad-url/at-keyword/function other than url(), URL schemes allow-listed, style element and attribute not ended.",
             "Trusts the CSS Syntax 3 reference tokenizer/parser in ref/csstok and ref/htmltok. Plain-string and SafeCSS style values are author-trusted (not listed by the statement).",
             "4.5", "enum"),
+    "C11": ("fault_enumeration",
+            "exhaustive configuration x fault-point enumeration on the real handler",
+            "Every component that writes up to 3/4 chunks of sizes {1,100,5000} and then fails or succeeds (directly or nested under templ.Join) x status {unset,200,201,404} x 3 content types x 5 error-handler shapes (unset, status+body, body only, nothing, own content type) x buffered/streamed, each followed by three further renders over the shared buffer pool. A recording ResponseWriter captures committed status, headers at commit time, number of WriteHeader calls and body. Buffered oracle: success = exact status/content type/full document; failure = no document byte, default 500 message or exactly what the error handler alone writes, handler receives the cause.",
+            "Streaming configurations are recorded for contrast only. An error handler that writes a body without a status chooses its own implicit 200.",
+            "4.11", "enum"),
+    "C20": ("exploration",
+            "exhaustive configuration x document enumeration through the real proxy handler over loopback",
+            "960 configurations (Content-Encoding identity/gzip/br/unsupported x 5 content types x 6 CSP shapes x plain/HX-Request x skip marker x client Accept-Encoding) x 6 representative documents, plus every document of a small well-formed-HTML grammar (4 shells x every body of up to 2/3 of 14 fragments incl. existing scripts containing </body>, comments, RCDATA, tables, SVG, entities, non-ASCII) and 4 KB / 1 MB (/4 MB) fillers x 16 core configurations, through proxy.New(...).ServeHTTP with an httptest backend. Modified case: the body decodes with the response's Content-Encoding, re-parses to a DOM equal to parse(original) plus exactly one reload script as last child of the first body carrying the first script-src nonce; Content-Length equals bytes sent. Pass-through case: body, Content-Encoding and Content-Type byte-identical.",
+            "DOM equality via x/net/html re-parse; documents limited to the grammar; loopback sockets only.",
+            "4.20", "enum"),
     "C17": ("model_checking",
             "explicit-state BFS over real Document objects vs byte-splice reference",
             "Every document up to 4 (quick) / 5 (thorough) bytes over {a,b,\\n}, every ordered range including positions beyond the line and document end, six replacement texts and the nil-range full replace, chained breadth-first to depth 2/3 over the resulting documents; each transition runs the real Document.Apply on a fresh instance and is compared with a byte-splice reference. Exhaustive within the bound, so every clamping/branching combination of the edit classifier is reached.",
